@@ -208,7 +208,8 @@ func funcSplitVec(chunk []KVPair, args []Expression, ctx *ExecuteCtx) ([]any, er
 func funcJoinVec(chunk []KVPair, args []Expression, ctx *ExecuteCtx) ([]any, error) {
 	ret := make([]any, len(chunk))
 	for i := 0; i < len(chunk); i++ {
-		row, err := funcJoin(chunk[i], args, ctx)
+		// The row body must not use the per row field cache (it is not cleared between the rows of a chunk)
+		row, err := funcJoin(chunk[i], args, nil)
 		if err != nil {
 			return nil, err
 		}
@@ -274,7 +275,8 @@ func funcL2DistanceVec(chunk []KVPair, args []Expression, ctx *ExecuteCtx) ([]an
 func funcFloatListVec(chunk []KVPair, args []Expression, ctx *ExecuteCtx) ([]any, error) {
 	ret := make([]any, len(chunk))
 	for i := 0; i < len(chunk); i++ {
-		row, err := funcFloatList(chunk[i], args, ctx)
+		// The row body must not use the per row field cache (it is not cleared between the rows of a chunk)
+		row, err := funcFloatList(chunk[i], args, nil)
 		if err != nil {
 			return nil, err
 		}
@@ -286,7 +288,8 @@ func funcFloatListVec(chunk []KVPair, args []Expression, ctx *ExecuteCtx) ([]any
 func funcIntListVec(chunk []KVPair, args []Expression, ctx *ExecuteCtx) ([]any, error) {
 	ret := make([]any, len(chunk))
 	for i := 0; i < len(chunk); i++ {
-		row, err := funcIntList(chunk[i], args, ctx)
+		// The row body must not use the per row field cache (it is not cleared between the rows of a chunk)
+		row, err := funcIntList(chunk[i], args, nil)
 		if err != nil {
 			return nil, err
 		}
@@ -300,7 +303,8 @@ func funcToListVec(chunk []KVPair, args []Expression, ctx *ExecuteCtx) ([]any, e
 	// argument's value, exactly as the row version does
 	ret := make([]any, len(chunk))
 	for i := 0; i < len(chunk); i++ {
-		row, err := funcToList(chunk[i], args, ctx)
+		// The row body must not use the per row field cache (it is not cleared between the rows of a chunk)
+		row, err := funcToList(chunk[i], args, nil)
 		if err != nil {
 			return nil, err
 		}
